@@ -104,7 +104,20 @@ def check_text(acc: core.Acc, text: str, opts: dict, all_chunkings: bool = True)
         deliveries.append(list(text))
     deliveries.append(text.splitlines(keepends=True))
     deliveries.append([x for c in text for x in ('', c, '')])
+    deliveries.append('<file-after-header>')
     for chunks in deliveries:
+        if chunks == '<file-after-header>':
+            # a file object whose first line (a header with tokens in it) was already consumed by the caller
+            import io
+            buf = io.StringIO('"header" { [x] /* */\n' + text)
+            buf.readline()
+            got, _, problem = run_tok(buf, opts, n)
+            if got != ref and ref and ref[-1][0] != 'EXC':
+                # line numbers are relative to what the tokenizer was given: compare as is
+                acc.fail('tok_chunk_dependent', dict(case, chunks='file positioned after a header line'),
+                         f'text={text!r} opts={opts}\n whole : {ref}\n file object positioned after a consumed header line: {got}')
+            acc.evaluations += 1
+            continue
         got, _, problem = run_tok(iter(chunks), opts, n)
         acc.evaluations += 1
         if got != ref:
